@@ -95,7 +95,9 @@ Req == /\ Rec[l].e = "req" /\ mode = "ok"
               \* dropped out of turn and then rolls back / no longer serves shows up as C04_Seq302 / C04_GetReturnsLast further on
               onlyEviction == failed # {} /\ failed \subseteq {"C20_RecencyOrder", "C20_EvictsLeastRecentlyUsed"} /\ o = m.reply
           IN /\ IF failed # {}
-                THEN PrintT(<<"VIOL", ToJson([line |-> l, b |-> beh, failed |-> failed])>>) /\ mode' = (IF onlyEviction THEN "ok" ELSE "skip")
+                \* (the behaviour goes on against the reference after a violation - only a dead node ends it: what the node wrongly stored or
+                \* refused shows again in what it serves, accepts and rolls back later, under the formulas of the other properties)
+                THEN PrintT(<<"VIOL", ToJson([line |-> l, b |-> beh, failed |-> failed])>>) /\ mode' = (IF onlyEviction \/ o.kind # "PANIC" THEN "ok" ELSE "skip")
                 ELSE IF ~conforms
                      THEN PrintT(<<"DRIFT", ToJson([line |-> l, b |-> beh, obs |-> o, model |-> m.reply, obsA |-> A, modelA |-> Proj(m.st)])>>)
                           /\ mode' = (IF OrderOnly(o, A, m) THEN "ok" ELSE "skip")
